@@ -73,47 +73,54 @@ func depTypeVerdict(op, res string) (bool, string) {
 	return false, ""
 }
 
-// allPiped: the hypothesis of the round-trip theorem fails (Api.SomeExclusionSurvives)
-func allPiped(d Dep) bool {
-	if len(d.Excl) == 0 {
-		return false
+// typeDepSpec: what MavenDepTypeToDependency has to answer on a Maven dep.Type, written from the
+// documentation of the attributes: Test and Scope together are invalid; the exclusions attribute
+// is a |-separated list of group:artifact, empty items ignored, an item without a colon invalid.
+func typeDepSpec(t reqType) string {
+	if t.Test && t.Scope != nil {
+		return "err"
 	}
-	for _, e := range d.Excl {
-		if !strings.Contains(e.G, "|") && !strings.Contains(e.A, "|") {
-			return false
+	str := func(p *string) string {
+		if p == nil {
+			return ""
+		}
+		return *p
+	}
+	d := Dep{Typ: str(t.Typ), Cls: str(t.Cls), Scope: str(t.Scope)}
+	if t.Test {
+		d.Scope = "test"
+	}
+	if t.Opt {
+		d.Opt = "true"
+	}
+	if t.Exc != nil {
+		for _, seg := range strings.Split(*t.Exc, "|") {
+			if seg == "" {
+				continue
+			}
+			g, a, ok := cutName(seg)
+			if !ok {
+				return "err"
+			}
+			d.Excl = append(d.Excl, Excl{g, a})
 		}
 	}
-	return true
+	return "ok D" + fmtAst([]Dep{d}) + "/o=" + fw.Hx(str(t.Origin))
 }
 
-// apiFinding: the decidable classifiers of the two totality findings of the API path.
-// F-C15-h: a profile without activation (probe kinds only). F-C15-i: a MavenExclusions value
-// one of whose |-separated segments has no colon (Api.ExclusionsWellFormed fails) — on a
-// dependency that is the case exactly when it has exclusions and every one contains a pipe.
-func apiFinding(op string) string {
+func typeDepVerdict(op, res string) (bool, string) {
 	f := strings.Fields(op)
-	if len(f) < 3 {
-		return ""
+	if len(f) != 3 || f[1] != "typedep" {
+		return false, ""
 	}
-	switch f[1] {
-	case "probe":
-		return probeFinding(op)
-	case "deptype":
-		d, _, ok := decodeDepOrigin(f[2:])
-		if ok && allPiped(d) {
-			return "F-C15-i"
-		}
-	case "typedep":
-		t, ok := parseType(f[2])
-		if ok && t.Exc != nil {
-			for _, seg := range strings.Split(*t.Exc, "|") {
-				if !strings.Contains(seg, ":") {
-					return "F-C15-i"
-				}
-			}
-		}
+	t, ok := parseType(f[2])
+	if !ok {
+		return false, ""
 	}
-	return ""
+	if want := typeDepSpec(t); res != want {
+		return true, "MavenDepTypeToDependency gives " + trunc(res, 300) + ", the documented attribute format " + trunc(want, 300)
+	}
+	return false, ""
 }
 
 // ---- per lineage
